@@ -279,7 +279,7 @@ func c18Iface(c *fw.Case) (o fw.Outcome) {
 		cfg.ULIface = "vfnone" + digits(r, 4)
 	case 2:
 		cfg.DLIface, cfg.ULIface = "ifb0", "ifb1"
-		cfg.UeNumber = 1 + r.Intn(2)
+		cfg.UeNumber = 3 + r.Intn(2) // three and more: state carried from one loop iteration to the next shows from the third UE on
 	}
 	cfg.Reg = cfg.UeNumber // the AMF's view of how many registrations to expect
 	ch := genChoices(r, maxInt(cfg.UeNumber, 1))
